@@ -8,7 +8,6 @@ import (
 	dtpb "github.com/google/fhir/go/proto/google/fhir/proto/r4/core/datatypes_go_proto"
 	"github.com/shopspring/decimal"
 	"github.com/verily-src/fhirpath-go/internal/fhir"
-	"github.com/verily-src/fhirpath-go/internal/fhirconv"
 	"github.com/verily-src/fhirpath-go/internal/protofields"
 )
 
@@ -115,7 +114,7 @@ func From(input any) (Any, error) {
 		}
 		return value, nil
 	case *dtpb.Instant:
-		value, err := ParseDateTime(fhirconv.InstantToString(v))
+		value, err := instantFromProto(v)
 		if err != nil {
 			return nil, err
 		}
